@@ -198,9 +198,38 @@ func keysOf(s map[int64]bool) []int64 {
 	return out
 }
 
-func TestC08(t *testing.T) {
+func TestC08(t *testing.T) { runC08(t, "C08", "TestC08") }
+
+// the same judge over AVS-heavy histories (the generator of C20: registrations, opt-ins, BLS
+// keys, tasks, both result phases, challenges, updates of task contracts, epoch-end statistics),
+// with node-local simulations and restarts in between
+func TestC08AVS(t *testing.T) { runC08(t, "C08AVS", "TestC08AVS") }
+
+func init() {
+	base := *worldProps["C08"]
+	base.Name = "C08AVS"
+	base.Config = func(t *rapid.T) sim.Config {
+		cfg := c08Config(t)
+		cfg.NumAVS = 2 + uniform(t, 2, "nAVSD2")
+		return cfg
+	}
+	w := avsWeights()
+	for k, v := range map[string]int{"price": 6, "payFee": 2, "optOut": 1, "setKey": 1, "undelegate": 3, "rawCall": 3} {
+		w[k] = v
+	}
+	// (kinds that call keepers directly instead of going through a block are not part of the
+	// recorded blocks and are left out)
+	for _, k := range []string{"slash", "jail", "unjail", "nstUpdate"} {
+		delete(w, k)
+	}
+	w["evidence"] = 2
+	base.Gen = GenOpts{Weights: w, HostilePct: 6, ExtremePct: 0, Anchor: true, Tempos: []int{7, 21, 45}, CapBits: 40, ClampBits: 40, SimPct: 12, Dynamic: avsDynamic}
+	registerWorldProp(&base)
+}
+
+func runC08(t *testing.T, propName, testName string) {
 	const prop = "C08"
-	p := worldProps[prop]
+	p := worldProps[propName]
 	defer finish(t, prop)
 	st := getStats(prop)
 	st.Rule = "rapid-generated block sequences over all custom modules (signed price transactions for 2 feeders, gateway precompile transactions, operator/delegation messages, fee-paying transfers, double-sign evidence, epoch ends, validator-set changes) are recorded as raw blocks and executed again from genesis in fresh application instances (every execution samples new Go map iteration orders), one of them with restarts, and in the thorough tier in separate OS processes; app hash, transaction code/data/gas, validator updates and consensus-parameter updates of every block and the final in-memory oracle state must be byte-identical; " +
@@ -242,7 +271,7 @@ func TestC08(t *testing.T) {
 		if len(g.Tempos) > 0 {
 			g.MaxDt = g.Tempos[uniform(rt, len(g.Tempos), "tempo")]
 		}
-		cf := &CaseFile{Property: prop, Config: cfg, Test: "TestC08"}
+		cf := &CaseFile{Property: prop, Config: cfg, Test: testName}
 		lastCase = cf
 		m := recordHistory(rt, p, cfg, func(m *Machine, i int) (Action, bool) {
 			if i >= n {
